@@ -12,7 +12,7 @@
 (* kind = "small": radii too small for the chord (axis-aligned in the ellipse frame): the exact   *)
 (* minimal enlargement factor is rational and the result is a half ellipse.                       *)
 EXTENDS Integers, Sequences, FiniteSets, TLC, Json
-CONSTANTS Radii, Phis, Ths, Dls, Centers, SmallH
+CONSTANTS Radii, Phis, Ths, Dls, Centers, SmallH, SmallR
 Full == 24
 Abs(x) == IF x < 0 THEN -x ELSE x
 Sgn(x) == IF x < 0 THEN -1 ELSE IF x > 0 THEN 1 ELSE 0
@@ -27,6 +27,8 @@ DlsSome == { -23, -18, -13, -12, -11, -6, -1, 1, 5, 6, 11, 12, 13, 17, 23 }
 CentersA == { <<0,0>>, <<3,-2>> }
 CentersB == { <<3,-2>> }
 SmallA == { 6, 9 }
+SmallB == { 6, 9, 29, 31, 45 }
+SmallRA == { <<5,3>>, <<2,7>>, <<3,3>>, <<7,7>> }
 
 Flags(dl) == <<IF Abs(dl) > 12 THEN 1 ELSE 0, IF dl > 0 THEN 1 ELSE 0>>
 Compl(dl) == IF dl > 0 THEN dl - Full ELSE dl + Full
@@ -62,7 +64,8 @@ VARIABLES arc, pos
 vars == <<arc, pos>>
 Fit == [kind : {"fit"}, r : Radii, phi : Phis, th : Ths, dl : Dls, c : Centers]
 (* too-small radii: chord of half-length h > r along the ellipse's own x or y axis *)
-Small == [kind : {"small"}, r : Radii, phi : Phis, h : SmallH, ax : {"x", "y"}, fa : {0,1}, fs : {0,1}, c : Centers]
+(* near = 0: the radii as given; near = 1, 2: radii that are too small only by a relative 1e-6 / 2e-8 (same shape, same answer) *)
+Small == [kind : {"small"}, r : SmallR, phi : Phis, h : SmallH, ax : {"x", "y"}, fa : {0,1}, fs : {0,1}, c : Centers, near : {0, 1, 2}]
 Init == pos = 0 /\ (arc \in Fit \/ (arc \in Small /\ arc.h > (IF arc.ax = "x" THEN arc.r[1] ELSE arc.r[2])))
 Advance == arc.kind = "fit" /\ pos < Abs(arc.dl) /\ pos' = pos + 1 /\ UNCHANGED arc
 Next == Advance
